@@ -20,6 +20,8 @@ R3  length source: __len__ sums the trajectory dimension over *all* files of
 R4  eviction refusal wiring: the cache's popitem raises before evicting when
     the flag is set; the flag is set iff the store has no base file and is
     cleared only by `save` after everything was written.
+R7  file-link typestate (C08-R5): no list operation dereferences file-only
+    state on a store that has no file attached.
 R5  the cache key under which a loaded trajectory is stored is the requested
     index, and __getitem__ consults the cache with that same key.
 """
@@ -47,6 +49,10 @@ SITE_TABLE = {
 def run(ctx):
     prog = ctx.prog
     m = prog.module(STORE)
+    # R7: the list operations (add / sync / close / index / iterate / len) work on a store that has no file attached
+    # yet: file-only state is dereferenced only behind a test that files are attached (typestate rule of C08)
+    from .c08 import rule_linked
+    rule_linked(ctx, m, rule='C07-R7')
     cls = m.cls('TrajectoryStore')
     add = m.func('TrajectoryStore.add')
 
